@@ -249,7 +249,9 @@ func pipeline(files []srcFile, useRes useResolver, noCheck bool) (res result) {
 		var comments []string
 		res.Reached = stTokenize
 		err, cr := runStage(stTokenize, func() (e error) {
-			tokens, comments, e = t.Tokenize(tm, f.Name, f.Src)
+			// cap == len: a reused buffer with spare capacity would let the tokenizer slice
+			// one byte past the end of the source without the out-of-range panic showing
+			tokens, comments, e = t.Tokenize(tm, f.Name, f.Src[:len(f.Src):len(f.Src)])
 			return e
 		})
 		if cr != nil {
